@@ -109,6 +109,13 @@ def generate(seed, tier):
         # a kernel with sub-policies, marks or interface ids: its ACQUIRE / EXPIRE events carry XFRMA_POLICY_TYPE, XFRMA_MARK, XFRMA_IF_ID
         sc['kernel_event_attrs'] = r.sample(['policy_type', 'mark', 'if_id'], r.randint(1, 3))
         sc['meta']['kernel_event_attrs'] = True
+    if r.random() < 0.15:
+        # netlink transport faults (send() fails with ENOBUFS / the acknowledgement is lost): not refusals by the kernel
+        for _ in range(r.randint(1, 3)):
+            sc['ops'].append({'t': round(r.uniform(1.5, sc['until'] * 0.8), 3), 'op': 'knlfail', 'node': 'B', 'nth': r.randint(1, 3),
+                              'how': r.choice(['send', 'send', 'recv'])})
+        sc['ops'].sort(key=lambda x: x['t'])
+        sc['meta']['knlfail'] = True
     return sc
 
 
